@@ -2021,14 +2021,41 @@ def _tracked_oslice(E, st, r):
 
 
 @model(['core::slice::<impl [T]>::split_first', 'core::slice::<impl [T]>::split_last',
-        'core::slice::<impl [T]>::first', 'core::slice::<impl [T]>::last'],
+        'core::slice::<impl [T]>::first', 'core::slice::<impl [T]>::last',
+        'core::slice::<impl [T]>::split_first_mut', 'core::slice::<impl [T]>::split_last_mut',
+        'core::slice::<impl [T]>::first_mut', 'core::slice::<impl [T]>::last_mut'],
        'None when empty; otherwise the first/last element (and the rest of the slice)')
 def m_split_first(E, st, fid, t, args, dest_ty):
     nm = t['callee']['name']
+    mut = nm.endswith('_mut')
+    if mut:
+        nm = nm[:-4]
     tr = _tracked_oslice(E, st, args[0])
     if tr is None:
-        if _slice_of(E, st, args[0]) is not None:
-            E.check_exposed(st, args, nm)
+        sl = _slice_of(E, st, args[0])
+        if sl is not None:
+            # a slice of slot storage: the element reference and the rest keep their places in the container
+            mid, lo, hi, _ = sl
+            out = []
+            a = st.fork()
+            a.zone.add_lt(lo, hi)
+            if a.zone.sat:
+                if nm in ('split_first', 'first'):
+                    eidx, nlo, nhi = lo, slots.plus(a, lo, 1), hi
+                else:
+                    nhi = fresh('p')
+                    a.zone.add_eq(hi, nhi, 1)
+                    eidx, nlo = nhi, lo
+                a.log('at', mid, eidx)
+                elem = ('ref', mut, ('mu', mid, eidx))
+                if nm.startswith('split'):
+                    out.append(('ret', a, some(('tuple', (elem, ('ref', mut, ('slice', mid, nlo, nhi)))))))
+                else:
+                    out.append(('ret', a, some(elem)))
+            st.zone.add_le(hi, lo)
+            if st.zone.sat:
+                out.append(('ret', st, NONE))
+            return out
         return E.opaque_call(st, fid, t, args, dest_ty)
     tg, lo, hi, ln = tr
     out = []
